@@ -7,15 +7,15 @@ FAMS = {
     # pid: (MC module, actions that must be taken, trace module, generator family, component label)
     "C17": ("MC_Osc", ["StepOsc", "StepNoise"], "Trace_Osc", "osc", "osc"),
     "C18": ("MC_Sinc", ["Push", "Reset", "Conv"], "Trace_Sinc", "sinc", "sinc"),
-    "C20": ("MC_Window", ["NextChunk", "NthChunk"], "Trace_Window", "window", "window"),
+    "C20": ("MC_Window", ["NextChunk", "NthChunk", "SetBin", "SetHop", "SetFrames"], "Trace_Window", "window", "window"),
 }
 MC_CONSTANTS = {
     "C17": {"quick": {"rates": [1, 2, 4, 8, 16], "hz": "0..40 per frame, histories of any length (VIEW)", "stimulus_frames": 24},
             "thorough": {"rates": [1, 2, 4, 8, 16], "hz": "0..40 per frame, histories of any length (VIEW)", "stimulus_frames": 64}},
     "C18": {"quick": {"depth": "1..3", "history": "3*depth+2", "resets": 2},
             "thorough": {"depth": "1..4", "history": "3*depth+2", "resets": 3}},
-    "C20": {"quick": {"L": "0..10", "b": "2..5", "h": "1..12", "nth": "0..3"},
-            "thorough": {"L": "0..12", "b": "2..6", "h": "1..14", "nth": "0..4"}},
+    "C20": {"quick": {"L": "0..10", "b": "2..5", "h": "1..12", "nth": "0..3", "field_assignments": 1},
+            "thorough": {"L": "0..12", "b": "2..6", "h": "1..14", "nth": "0..4", "field_assignments": 2}},
 }
 
 
@@ -77,6 +77,9 @@ def c17(ctx, replay):
         "noise: u64 is modelled as Z_4 in MC_Osc; the harness drives seeds 0, 1, 2^32-1, 2^32, 2^63, u64::MAX-1, u64::MAX and random ones",
         "hz mode: the instrumented frequency signals optionally report is_exhausted() after k pulls while they keep "
         "yielding their programmed (non-zero) frequencies, as from_iter(dev).offset_amp(base) does",
+        "a clone of an oscillator / noise source taken mid-run continues as the original does: `peek` reads the next m <= 8 "
+        "frames of a clone of every oscillator through the provided Signal::take on the concrete type and the original's "
+        "following frames must reproduce them bit for bit; other provided Signal adaptors are not driven on these types",
     ]
     rej, _ = pipeline(ctx, "C17", replay)
     ctx.add_rejections(rej)
@@ -91,6 +94,8 @@ def c18(ctx, replay):
         "superposition tolerance 4*depth*eps*peak is statistical head-room (observed <= 1e-15), not a worst-case rounding bound",
         "integer frames stay below 1/8 full scale wherever a fractional position is interpolated, so that no tap sum "
         "overflows; on the grid (ratio-1 converter runs, TLC's histories) i32 frames go up to full scale",
+        "the converter is read by next() and, at the end of an execution, by consuming it through the provided Signal::take; "
+        "Sinc is not Clone and has no public state",
     ]
     rej, _ = pipeline(ctx, "C18", replay)
     ctx.add_rejections(rej)
@@ -104,8 +109,17 @@ def c20(ctx, replay):
         "chunk frames are compared bit for bit with mul_amp(frame, w) where w is the value observed from a stand-alone Window "
         "of the frame type's Float companion (no cosine is evaluated by the specification)",
         "only the first `bin` frames of a chunk are taken (Windowed is an infinite iterator)",
-        "the windower is advanced by next, nth(k), by_ref().skip(k).next() and by_ref().step_by(s); other iterator "
-        "adaptors are compositions of these",
+        "a windower value is advanced by next, nth(k), by_ref().skip(k).next(), by_ref().step_by(s), by_ref().take(m), "
+        "find / position / any / all (predicates that fire at a chosen call), consumed by count / last / fold / for_each, "
+        "cloned at any point (up to three values per execution, all continued) and built by Windower::new or the named "
+        "constructors; collect / partition / min / max and the adaptors built on try_fold are compositions of these",
+        "the public fields bin, hop, frames may be assigned between calls (bin >= 2, hop >= 1, frames = any sub-slice of "
+        "the execution's frame array): afterwards the value is a fresh windower over the remaining slice with the current "
+        "field values; model checking allows 1 (quick) / 2 (thorough) assignments per behaviour, random runs up to 3",
+        "a chunk's frames are read by next, by_ref().take, nth(0), from a clone of the chunk taken half-way, or in part by "
+        "nth(1) / step_by(2) / skip(1); the stand-alone Window is also advanced by nth / step_by / by_ref().take on fresh "
+        "and cloned instances and after its public phase field is re-assigned (values compared with the first pass to "
+        "1e-12 / 2^-22); its size hint must not promise fewer values than the window has left",
         "window functions evaluated directly (dasp_window::Window::window) on f64, f32 and i16 phases: Hann on [0, 1] "
         "(+- 3 ulp), Rectangle on [-2, 3]; an i16 amplitude of 1 is full scale (32767)",
     ]
